@@ -72,7 +72,7 @@ def joinP (sep : List Piece) : List (List Piece) → List Piece
 
 def paren (ps : List Piece) : List Piece := [kw "("] ++ ps ++ [kw ")"]
 
-def isArithSym (s : String) : Bool := s == "+" || s == "-" || s == "*" || s == "\\"
+def isArithSym (s : String) : Bool := s == "+" || s == "-" || s == "*" || s == "/" || s == "\\"
 
 /-- default-mode atom: `[not ]['][_][__]name['](v1,…,vn)`; the empty name prints nothing -/
 def atomPieces (a : Atom) : List Piece :=
